@@ -177,7 +177,7 @@ PROPS["C20"] = {
         {"name": "stub-mmap-failing", "pkg": "./internal/bytecode/stub", "run": "^TestVerifC20Rlimit$",
          "timeout": {"quick": 300, "thorough": 1800}, "shards": {"quick": 1, "thorough": 4}},
         {"name": "consumers", "pkg": "./zverif/c20i", "run": "^TestVerifC20Consumers$",
-         "timeout": {"quick": 300, "thorough": 1800}, "shards": {"quick": 1, "thorough": 4}},
+         "timeout": {"quick": 300, "thorough": 1800}, "shards": {"quick": 1, "thorough": 8}},
     ],
     "rule": "in-package test of the stub allocator: (1) rapid-drawn sequences of request sizes 0..110000 against the fallback allocator with the bump "
             "pointer reset per case, up to and beyond exhaustion; (2) 2..16 requesters behind a spin barrier issuing 1..64-byte requests until "
